@@ -69,6 +69,25 @@ fn case(input: &Input, ctx: &mut Ctx) -> CaseResult {
             Err(m) => Err(crate::run::Violation::new(m)),
         };
     }
+    // the in-place operators written the way application code writes them, with bare integer literals (whatever type the
+    // literal ends up with, the result is the identifier that many steps around the cycle)
+    {
+        let pid = match Pid::try_from(p) {
+            Ok(x) => x,
+            Err(e) => viol!("Pid::try_from({}) failed: {:?}", p, e),
+        };
+        macro_rules! lit {
+            ($($n:literal),*) => {$(
+                let mut a = pid;
+                a += $n;
+                let mut b = pid;
+                b -= $n;
+                ensure!(a.value() == model_add(p, $n as u16) && a == pid + ($n as u16), "Pid({}) += {} (a bare literal) gives {} but Pid({}) + {} is {}", p, $n, a.value(), p, $n, (pid + ($n as u16)).value());
+                ensure!(b.value() == model_sub(p, $n as u16) && b == pid - ($n as u16), "Pid({}) -= {} (a bare literal) gives {} but Pid({}) - {} is {}", p, $n, b.value(), p, $n, (pid - ($n as u16)).value());
+            )*};
+        }
+        lit!(0, 1, 2, 3, 4, 7, 100, 255, 256, 32767, 32768, 65534, 65535);
+    }
     let mut wraps = 0u64;
     for u in 0..=u16::MAX {
         match check_pair(p, u) {
